@@ -3,6 +3,7 @@ package props
 import (
 	"bytes"
 	"fmt"
+	"io"
 	"log"
 	"strings"
 	"time"
@@ -180,6 +181,22 @@ func runC06(c *Ctx) {
 	case hkGoexit:
 		opts = append(opts, zap.OnFatal(zapcore.WriteThenGoexit))
 	}
+	// caller / stack annotation, also with a skip beyond the stack (capture fails)
+	annot := g.Weighted(3, 1, 1, 1)
+	switch annot {
+	case 1:
+		opts = append(opts, zap.AddCaller())
+	case 2:
+		opts = append(opts, zap.AddStacktrace(zapcore.DPanicLevel))
+	case 3:
+		opts = append(opts, zap.AddCaller(), zap.AddStacktrace(zapcore.ErrorLevel))
+	}
+	skip := 0
+	if annot != 0 {
+		skip = pick(g, 0, 0, 1, 1000)
+		opts = append(opts, zap.AddCallerSkip(skip))
+	}
+	opts = append(opts, zap.ErrorOutput(zapcore.AddSync(io.Discard)))
 	lg := zap.New(core, opts...)
 	if g.Chance(3) {
 		lg = lg.With(zap.String("ctx", "v")).Named("svc")
@@ -193,6 +210,7 @@ func runC06(c *Ctx) {
 	w.termMsg = "terminal-entry"
 	nOthers := g.Weighted(3, 2, 1)
 	preLines := g.Draw(3)
+	c.Describe("annot=%d callerSkip=%d", annot, skip)
 	c.Describe("shape=%d leaves=%s dev=%v panicHook=%s fatalHook=%s front=%s level=%s others=%d pre=%d policy=%s", shape, c06leaves(w), development, c06hookNames[panicHook], c06hookNames[fatalHook], c6frontNames[front], lvl, nOthers, preLines, r.Policy)
 	c.MixState(uint64(shape)<<24 | uint64(panicHook)<<20 | uint64(fatalHook)<<16 | uint64(front)<<8 | uint64(lvl))
 
